@@ -249,6 +249,9 @@ class Prop(PropBase):
                 "nr_gt1": cfg["nr"] > 1, "array_shape": bool(cfg["elems"]), "written_now": info.get("written_now"),
                 "written_prev": info.get("written_prev")}
 
+    def violation_class(self, feats):
+        return {k: feats.get(k) for k in ("kind", "gran_multi", "array_shape")}
+
     def cfg_signature(self, cfg):
         return [cfg[k] for k in ("depth", "width", "elems", "gran", "nr", "nw", "sched")]
 
